@@ -413,6 +413,11 @@ def check(run, prog, tier):
                 okv = True
         run.ob("O5", f"{fn.qual}:sets-started-{val}", okv, loc(fn), f"{fn.name}() leaves started = {val}")
 
+    # the running state (_task, may-answer flag) belongs to the current start()..stop() generation
+    from .derived import lifecycle_owner
+    with run.part("O8 generation state"):
+        lifecycle_owner(run, prog, scan, "O8", INST)
+
     # every entry handed to queue_send is transmitted exactly once (C15 rule set as supporting obligations)
     from .C15 import queue_exactly_once
     queue_exactly_once(run, prog, tier, "O7")
